@@ -217,6 +217,15 @@ func genProgram(rt *rapid.T, pf *profile) *Program {
 			}
 		}
 	}
+	if (p.Spec.Kind == "map" || p.Spec.Kind == "cache") && p.Mode == "" && p.Spec.Presize <= 96 && irange(rt, 0, 5, "topHashCollision") == 0 {
+		// two hot keys that share bucket and top hash; the table must stay at its initial 32 buckets
+		p.Collide = true
+		p.Hot = 3
+		if p.Fill > 40 {
+			p.Fill, p.Keep = irange(rt, 0, 30, "smallFill"), 0
+			p.Keep = p.Fill
+		}
+	}
 	next := 1
 	val := func() int { next++; return next - 1 }
 	isCache := p.Spec.IsCache()
